@@ -24,6 +24,7 @@ type cfg struct {
 	Thr   bool       // control behaviour throttling (no queueing) instead of reject: the warm-up threshold paces the requests
 	Pre   int        // family of the rule the resource carried before (0 = none): the warm-up rule replaces it by a reload
 	SC    hx.StatCfg // process-wide statistic configuration (zero value: the default)
+	Twice bool       // the warm-up rule is listed twice (equal values, distinct objects): the two controllers move in lockstep
 }
 
 func (c cfg) iv() int {
@@ -82,10 +83,14 @@ func loadWarm(t *rapid.T, c cfg) {
 	if c.Front {
 		front = append(front, &flow.Rule{ID: "front", Resource: "w", Threshold: 1e9}) // never blocks; reads the resource's shared window
 	}
-	if _, err := flow.LoadRules(append(front, warmRule(c))); err != nil {
+	list := append(front, warmRule(c))
+	if c.Twice {
+		list = append(list, warmRule(c))
+	}
+	if _, err := flow.LoadRules(list); err != nil {
 		t.Fatalf("LoadRules: %v", err)
 	}
-	if len(flow.GetRulesOfResource("w")) != 1+len(front) {
+	if len(flow.GetRulesOfResource("w")) != len(list) {
 		t.Fatalf("valid warm-up rule %+v not accepted", c)
 	}
 }
@@ -105,7 +110,11 @@ func partialUpdate(t *rapid.T, c cfg, k int) {
 	if c.Front {
 		l = append(l, &flow.Rule{ID: "front", Resource: "w", Threshold: 1e9})
 	}
-	l = append(l, warmRule(c), &flow.Rule{Resource: "elsewhere", Threshold: float64(k)})
+	l = append(l, warmRule(c))
+	if c.Twice {
+		l = append(l, warmRule(c))
+	}
+	l = append(l, &flow.Rule{Resource: "elsewhere", Threshold: float64(k)})
 	if _, err := flow.LoadRules(l); err != nil {
 		t.Fatalf("partial update: %v", err)
 	}
@@ -156,7 +165,7 @@ func drawCfg(t *rapid.T) cfg {
 	return cfg{T: T, P: uint32(rapid.IntRange(1, maxP).Draw(t, "P")), CF: uint32(rapid.SampledFrom([]int{0, 2, 3, 5, 10}).Draw(t, "CF")),
 		I:   uint32(rapid.SampledFrom([]int{0, 0, 0, 0, 1000, 500, 250, 2000}).Draw(t, "statIntervalMs")),
 		Pre: rapid.SampledFrom([]int{0, 0, 0, 1, 2, 3, 4, 5, 6}).Draw(t, "predecessor"), Front: rapid.IntRange(0, 3).Draw(t, "inertRuleInFront") == 0,
-		SC: drawStat(t)}
+		SC: drawStat(t), Twice: rapid.IntRange(0, 4).Draw(t, "listedTwice") == 0}
 }
 
 func TestWarmUpEnvelope(t *testing.T) {
@@ -185,6 +194,9 @@ func TestWarmUpEnvelope(t *testing.T) {
 		if (scenario == 0 || scenario == 1) && g.iv() == 1000 && g.T >= 2 && g.T == math.Floor(g.T) && rapid.IntRange(0, 3).Draw(t, "pacing") == 0 {
 			g.Thr, slack = true, 1
 			c.Class("warm-up-with-pacing-behaviour")
+			if scenario != 0 {
+				g.Twice = false // (a twice-listed pacing rule is only followed through scenario 0, where its lower bound is weakened)
+			}
 		}
 		if slowShape && exP28 {
 			// only the clause "never above the threshold" is asserted for this shape (arbitrary demand phases)
@@ -211,7 +223,7 @@ func TestWarmUpEnvelope(t *testing.T) {
 				c.Excluded("P9")
 			} else {
 				for s := warm * 1000 / ivMs; s < len(per); s++ {
-					if per[s] != floorT && !(g.Thr && per[s] >= floorT-1) {
+					if per[s] != floorT && !(g.Thr && per[s] >= floorT-1) && !(g.Thr && g.Twice) {
 						t.Fatalf("after %d s of saturating demand (period %d s): second %d admitted %d, full threshold is floor(%v) (admitted/s %v)", warm, g.P, s, per[s], g.T, per)
 					}
 				}
@@ -222,6 +234,18 @@ func TestWarmUpEnvelope(t *testing.T) {
 					again := demand(warm+4, 3, sat)
 					c.Op("after a partial update admitted/s %v", again)
 					c.Class("partial-update-while-warm")
+					if g.Thr && g.Twice {
+						// (two pacing controllers with no queueing drift apart whenever the second one refuses a request the first one
+						// has already booked: the rate they admit together is below the threshold, but never nothing at all)
+						sum := 0
+						for _, n := range again {
+							sum += n
+						}
+						if sum == 0 && floorT >= 1 {
+							t.Fatalf("warmed up, then a partial update with the (twice listed) pacing warm-up rule unchanged: nothing at all is admitted any more (admitted/s %v)", again)
+						}
+						again = nil
+					}
 					for s, n := range again {
 						if n != floorT && !(g.Thr && n >= floorT-1) {
 							t.Fatalf("warmed up (period %d s), then the rule set was reloaded with this rule unchanged and a rule of another resource changed: second %d of the continued saturating demand admitted %d, full threshold is floor(%v) (admitted/s %v)", g.P, s, n, g.T, again)
